@@ -207,6 +207,16 @@ pub fn run_bin_ext(args: &[&str], stdin: &[u8], envs: &[(&str, &str)], timeout_s
 
 /// Run an arbitrary executable (e.g. a script with a #! line naming the p2sh binary).
 pub fn run_prog(prog: &str, args: &[&str], stdin: &[u8], envs: &[(&str, &str)], timeout_s: u64, stdout_to: Option<&str>) -> BinOut {
+    // a run that overruns its limit is repeated once with a six times longer one before it is called a hang:
+    // on a heavily loaded machine a 16 ms process can stall for many seconds
+    let first = run_prog_once(prog, args, stdin, envs, timeout_s, stdout_to);
+    if first.timed_out {
+        return run_prog_once(prog, args, stdin, envs, std::cmp::max(60, timeout_s * 6), stdout_to);
+    }
+    first
+}
+
+fn run_prog_once(prog: &str, args: &[&str], stdin: &[u8], envs: &[(&str, &str)], timeout_s: u64, stdout_to: Option<&str>) -> BinOut {
     let mut cmd = Command::new(prog);
     cmd.args(args).env("RUST_BACKTRACE", "0").stdin(Stdio::piped()).stderr(Stdio::piped());
     match stdout_to {
